@@ -576,6 +576,9 @@ def replay(doc, pid):
     spec['server'] = [tuple(a) for a in spec['server']]
     sc = run_case(spec, decisions=list(c['decisions']), rng_after=False)
     f = ORACLES[pid](sc)
+    if not f and c.get('e2e'):
+        from . import e2e_check
+        f = e2e_check.oracle_stream(sc)
     print('case      :', c)
     print('outcomes  :', sc.outcomes, 'connected', sc.connected_end, 'result', sc.result)
     print('expected  : property %s holds' % pid)
